@@ -155,7 +155,9 @@ Inductive effect :=
                                        evaluation comes first: an external manager is neither the issuer
                                        nor storage) *)
 | EEvict (id : N)                   (* certificate removed from the cache *)
-| ESelfWait (n : name).             (* waits on the obtain channel it registered itself (until time-out) *)
+| ESelfWait (n : name).             (* the handshake goroutine waits on a channel nobody will close (never
+                                       produced by the model since fix a768045; the harness reports it
+                                       when it sees it) *)
 
 (** value returned by the maintenance functions: (Certificate, error) *)
 Inductive mres :=
@@ -269,14 +271,16 @@ Section WithSpace.
       if ok1 then let '(e2, r, w3) := reload w2 c in (ge ++ e1 ++ e2, r, w3)
       else (ge ++ e1, MErr, w2).
 
-  (** renewDynamicCertificate.  [held]: obtainCertWaitChans[n] is already registered — by this
-      goroutine itself (it is inside obtainOnDemandCertificate) or by its waiting parent. *)
+  (** renewDynamicCertificate.  [held]: obtainCertWaitChans[n] is already registered by this
+      goroutine itself (it is inside obtainOnDemandCertificate, maintaining the certificate it
+      loaded after obtaining): it recognises its own channel and does not wait on it — the
+      certificate is served if it is unexpired and unrevoked, else an error [fix a768045]. *)
   Definition renew_dynamic (w : world) (h : hello) (c : cert) (held : bool) : out mres :=
     match h_name h with
     | None => ([], [], MErr, w)
     | Some n =>
         if held then
-          if c_expired c || c_revoked c then ([ESelfWait n], [], MErr, w)
+          if c_expired c || c_revoked c then ([], [], MErr, w)
           else ([], [], MCert c, w)
         else if c_expired c then
           let '(e, r, w') := renew_and_reload w n c (h_issue_ok h) in (e, [], r, w')
@@ -313,7 +317,12 @@ Section WithSpace.
           | Some n =>
               let '(ge, allowed, w1) := gate w n true in
               if allowed then
-                let '(e, k, r, w2) := obtain_on_demand w1 h n in (EExists n0 :: ge ++ e, k, r, w2)
+                if held then
+                  (* obtainOnDemandCertificate finds the channel this goroutine registered itself:
+                     "already obtaining", an error, no wait [fix a768045] *)
+                  (EExists n0 :: ge, [], MErr, w1)
+                else
+                  let '(e, k, r, w2) := obtain_on_demand w1 h n in (EExists n0 :: ge ++ e, k, r, w2)
               else (EExists n0 :: ge ++ [EEvict (c_id c)], [], MErr, cache_remove (c_id c) w1)
           end
       else ([], [], MCert c, w).
